@@ -228,8 +228,8 @@ impl Monitor for C07 {
     }
     fn gens(&self, tier: Tier) -> Vec<(&'static str, u64)> {
         match tier {
-            Tier::Quick => vec![("stratified", 510), ("rank", 600), ("softmax", 1000)],
-            Tier::Thorough => vec![("sweep", 1u64 << (32 - CHUNK_BITS)), ("rank", 20000), ("softmax", 100000)],
+            Tier::Quick => vec![("stratified", 510 * 4), ("rank", 6000), ("softmax", 20_000)],
+            Tier::Thorough => vec![("sweep", 1u64 << (32 - CHUNK_BITS)), ("rank", 200_000), ("softmax", 200_000)],
         }
     }
     fn rule(&self) -> &'static str {
@@ -255,8 +255,9 @@ impl Monitor for C07 {
             }
             "stratified" => {
                 let sign = (idx % 2) as u32;
-                let exp = (idx / 2) as u32; // 0..=254
-                let off = (seed % 255) as u32 + 1;
+                let exp = ((idx / 2) % 255) as u32; // 0..=254
+                let block = (idx / 510) as u32; // four blocks of 2^15 mantissas per (sign, exponent)
+                let off = (seed % 255) as u32 + 1 + 257 * block;
                 let mut xs = Vec::with_capacity(1 << 15);
                 for k in 0..(1u32 << 15) {
                     let mant = match k {
@@ -380,7 +381,7 @@ impl Monitor for C07 {
             agg.require(n == all_finite, format!("expected {} finite bit patterns, swept {}", all_finite, n));
         } else {
             agg.extra.push(("exhaustive".into(), J::Bool(false)));
-            agg.require(n >= 16_000_000, format!("only {} inputs swept", n));
+            agg.require(n >= 60_000_000, format!("only {} inputs swept", n));
         }
         agg.require(agg.set_size("softmax_families") == 8, "not all soft-max families exercised".into());
     }
